@@ -1,4 +1,5 @@
 """C08 - SCTP packets round-trip exactly; packets corrupted by a bit burst are rejected by the checksum (Pure)."""
+import copy
 import collections
 
 from vt.core.batch import Batch
@@ -212,6 +213,57 @@ def case_roundtrip(rng, out):
             out.fail("reconfig-param-differs", f"param type {t}: bytes differ after parse/serialise", {"type": t, "raw": raw.hex()[:80]})
 
 
+def case_rebuild(rng, out):
+    """A chunk object that was serialised once and whose fields are then changed (the transport keeps such objects: pending
+    FORWARD TSN, queued DATA chunks that get flags and TSNs late) serialises to its current field values."""
+    import aiortc.rtcsctptransport as st
+
+    for _ in range(150):
+        c, fields, cls = gen_chunk(rng, st, small=True)
+        for _try in range(20):
+            c2, fields2, cls2 = gen_chunk(rng, st, small=True)
+            if type(c2) is type(c):
+                break
+        else:
+            continue
+        desc = {"kind": "rebuild", "class": type(c).__name__, "first": repr(c)[:100], "then": repr(c2)[:100]}
+        try:
+            first = st.serialize_packet(1, 2, 3, c)
+            bytes(c)
+            for f in fields2:
+                setattr(c, f, copy.deepcopy(getattr(c2, f)))
+            data = st.serialize_packet(1, 2, 3, c)
+            want = st.serialize_packet(1, 2, 3, c2)
+        except Exception as exc:
+            out.fail("rebuild-raises", f"{type(exc).__name__}: {exc}", desc, exc)
+            continue
+        out.counters["rebuilds_checked"] += 1
+        out.checked()
+        if data != want:
+            out.fail("stale-serialisation:" + type(c).__name__, f"after its fields were changed the chunk still serialises to "
+                     f"{'the bytes of its first serialisation' if data == first else 'other bytes'} ({len(data)} vs {len(want)} bytes)", desc)
+
+
+def case_transport(rng, out, index):
+    """Wire conformance of the running transport: every chunk object handed to RTCSctpTransport._send_chunk (public fields
+    recorded at the call) against what the datagram on the link parses back to - over lossy mixed-reliability programs,
+    where FORWARD TSN, SACKs with gaps/duplicates, RE-CONFIG and retransmitted DATA are built from live state."""
+    from vt.rigs.sctp_workload import gen_program, run_program, summarize_prog
+
+    prog = gen_program(rng, mode=rng.choice(["mixed", "mixed", "mixed", "reliable"]), heavy=index % 2 == 0)
+    r = run_program(prog, rng, relay=(index % 5 == 4), probe=False)
+    c = r["counters"]
+    out.counters["chunks_on_wire_compared"] += c.get("chunks_on_wire_compared", 0)
+    out.counters["chunks_built_observed"] += c.get("chunks_built_observed", 0)
+    out.checked(c.get("chunks_on_wire_compared", 0))
+    for v in r["violations"]:
+        if v["cat"] == "wire-conformance":
+            out.fail("wire-differs-from-built:" + str(v["key"]), v["what"], {"prog": summarize_prog(prog), "specs": r["specs"], "tsn_origins": r.get("origins")})
+    w = r["wire"]
+    if w.get("tx_fwd", 0) and w.get("tx_sack_with_gaps", 0):
+        out.distinct(("transport", r["fingerprint"]))
+
+
 def decide_hang(st, data, out, desc, what):
     """The wall-clock guard fired: decide with the step budget (40 monitored steps per byte + 4000)."""
     if data is None:
@@ -292,6 +344,17 @@ def case_burst(rng, out, tier, exhaustive):
         except CaseTimeout:
             decide_hang(st, desc.pop("cur", None), out, desc, "burst")
             break
+    # bursts aimed at the checksum field itself: the one burst that turns it into 0, all ones, 1, or its byte-swapped self
+    v = int.from_bytes(data[8:12], "big")
+    for target in (0, 0xFFFFFFFF, 1, int.from_bytes(data[8:12], "little"), v >> 1, (v << 1) & 0xFFFFFFFF):
+        m32 = v ^ target
+        if not m32:
+            continue
+        lz = 32 - m32.bit_length()
+        tz = (m32 & -m32).bit_length() - 1
+        try_burst(st, data, nbits, 64 + lz, 32 - lz - tz, m32 >> tz, out, desc)
+        out.counters["checksum_field_bursts"] += 1
+        n += 1
     desc.pop("cur", None)
     out.checked(0)
     out.distinct(("burst", data.hex()[:64], exhaustive))
@@ -307,9 +370,14 @@ def plan(tier):
 
 def run_case(index, rng, tier):
     kind = ("roundtrip", "burst", "burst-exhaustive")[index % 3]
+    if index % 12 == 9:
+        kind = "transport"
     out = Batch("C08", kind)
-    if kind == "roundtrip":
+    if kind == "transport":
+        case_transport(rng, out, index)
+    elif kind == "roundtrip":
         case_roundtrip(rng, out)
+        case_rebuild(rng, out)
     else:
         case_burst(rng, out, tier, kind == "burst-exhaustive")
     out.counters["kind_" + kind] += 1
